@@ -239,7 +239,7 @@ impl Driver {
         if status == 0 {
             return;
         }
-        let Some(rr) = log.iter().find(|x| x.clock_id == libc::CLOCK_REALTIME) else {
+        let Some(rr) = log.iter().find(|x| crate::clock::is_realtime(x.clock_id)) else {
             self.failures.push("now() returned a trusted interval without reading the realtime clock".into());
             return;
         };
@@ -481,6 +481,8 @@ pub fn run_e2e(case: &E2eCase, env: &mut Env) -> (Vec<String>, E2eStats) {
     let _ = std::fs::remove_file(&path);
     std::fs::write(&phc_path, format!("{}\n", case.phc_bound)).unwrap();
     let vc = VClock::new(case.uptime_ns as i128, REAL_BASE + case.uptime_ns as i128);
+    // a 250 Hz kernel: the coarse realtime clock, should anything read it, is up to 4 ms behind
+    vc.set_realtime_coarse_tick(4_000_000);
     let _g = vc.install();
     let driver = Rc::new(RefCell::new(Driver {
         case: case.clone(),
@@ -733,6 +735,7 @@ impl Property for C01 {
             "the physical premises are instantiated as: realtime clock = monotonic + constant, clock error piecewise linear with |slope| <= configured drift per monotonic second, no steps; chronyd's slewing between reports is part of 'the report was valid'".into(),
             "a SyncValid report bounds the clock error at a generated instant between the arrival of the request at chronyd and the departure of the reply".into(),
             "tolerance 1 ns + half-width * 2^-40 for the two f64 conversions".into(),
+            "CLOCK_REALTIME_COARSE, if read, returns the realtime clock of the last 4 ms tick (250 Hz kernel); CLOCK_MONOTONIC_COARSE is modelled as exact (its lag changes an age by at most one tick, i.e. the bound by drift x 4 ms)".into(),
         ]
     }
     fn cases(tier: Tier) -> u64 {
